@@ -47,6 +47,7 @@ func (v1pr Vector1PropertyReader) buildAscii(element Element) asciiPropertyReade
 				offset:         i,
 				modelAttribute: v1pr.ModelAttribute,
 				scalarType:     scalarType,
+				bitSize:        asciiBitSize(scalar.Type),
 				plyProperty:    v1pr.PlyProperty,
 			}
 		}
@@ -58,6 +59,7 @@ func (v1pr Vector1PropertyReader) buildAscii(element Element) asciiPropertyReade
 
 type builtAsciiVector1PropertyReader struct {
 	arr            []float64
+	bitSize        int
 	scalarType     ScalarPropertyType
 	modelAttribute string
 	offset         int
@@ -65,7 +67,7 @@ type builtAsciiVector1PropertyReader struct {
 }
 
 func (bav3pr builtAsciiVector1PropertyReader) Read(buf []string, i int64) error {
-	v, err := strconv.ParseFloat(buf[bav3pr.offset], 32)
+	v, err := strconv.ParseFloat(buf[bav3pr.offset], bav3pr.bitSize)
 	if err != nil {
 		return err
 	}
